@@ -9,5 +9,6 @@ import (
 	_ "verif/scenarios/c12"
 	_ "verif/scenarios/c13"
 	_ "verif/scenarios/c14"
+	_ "verif/scenarios/c16"
 	_ "verif/scenarios/c17"
 )
